@@ -45,11 +45,11 @@ func init() {
 			"(K4) kind lanes lie above ref lanes above version lanes, bit 63 is 0, node < way < relation, so integer order is (kind, ref, version) order; the less function of every provided sort, evaluated for two abstract elements under the three possible orders of their keys and both argument orders, is exactly key(i) < key(j) on the packed id (the ElementID where the element has one), Swap exchanges, Len counts, and every implementation of the key accessor is a K2 constructor; each provided Sort method as a whole, interpreted on constant witness lists with an inversion in the version, reference or kind field at the start, middle or end, hands every out-of-order list to package sort (or orders it itself) and does not panic on the empty list, so no fast path, length shortcut or pre-check on a coarser key (FeatureID instead of ElementID, Ref only) takes an unsorted list for sorted (sorted@). " +
 			"(K5) String() and the parsers are evaluated on abstract ids and abstract texts: String prints kind/ref[:version|:marker] with the marker exactly for version 0; Parse(String(id)) = (id, nil) for every form; kind/ref without version gives version 0; texts with 1..N `/`- or `:`-separated parts are accepted exactly for 2 resp. 1 or 2 parts (N exceeds every constant a part count is compared with); a reference or version that is not a number, an empty kind, any text that is not a kind of the parser's id type (including changeset/note/user/bounds for element and feature ids) and every string constant the parser compares a text with give a provably non-nil error and no panic. " +
 			"(K6) every strconv parse reached with the decimal text of the reference / version uses base 10 and a bit size covering 40 / 16 bits (plus sign). " +
-			"NOT decided: acceptance of odd but shape-conforming text (`+1`, leading zeros, negative or out-of-range refs/versions, which wrap into the fields; a version after a kind that carries none), malformed texts outside the enumerated classes, the decimal round trip of fmt %d / strconv (trusted transfer functions), inputs outside ref<2^40, version<2^16, and whether X.NodeID()/WayID() panic for ids of another kind (observed: `id&nodeMask != nodeMask` also lets relation ids through; outside the property statement). sorted@ is a finite set of witness lists (a report is a real counterexample; a fast path that misjudges only lists outside the witnesses is not found). Code outside the interpreted forms (function literals that assign to captured variables, goroutines, maps or tables that are written after initialisation, labelled jumps, string indexing/slicing, stores through pointers, strings.Builder) is reported as undecided, never silently accepted.",
+			"NOT decided: acceptance of odd but shape-conforming text (`+1`, leading zeros, negative or out-of-range refs/versions, which wrap into the fields; a version after a kind that carries none), malformed texts outside the enumerated classes, the decimal round trip of fmt %d / strconv (trusted transfer functions), inputs outside ref<2^40, version<2^16, and whether X.NodeID()/WayID() panic for ids of another kind (observed: `id&nodeMask != nodeMask` also lets relation ids through; outside the property statement). sorted@ is a finite set of witness lists (a report is a real counterexample; a fast path that misjudges only lists outside the witnesses is not found). Code outside the interpreted forms (function literals that assign to captured variables, goroutines, maps or tables that are written after initialisation, labelled jumps, byte-scanning loops over a text of unknown length, fmt.Sscanf, defer, stores through pointers, builders whose address escapes) is reported as undecided, never silently accepted.",
 		Assumptions: []string{
 			"go/types constant values and types.Sizes of the loaded build configuration (int is 64 bits by default, 32 bits under GOARCH=386; versions < 2^16 fit either way and every conversion through int is evaluated with the configured width)",
 			"input domain of the property: ref in [0,2^40), version in [0,2^16) (higher input bits are constant 0)",
-			"transfer functions of the interpreter: Go integer semantics of | & &^ ^ << >> + - and integer conversions (rules/c10_bitvec.go); strings.Split/SplitN/Cut/Contains/Count/Join, sort.Sort/Stable/Slice (recorded) and sort.IsSorted/SliceIsSorted (evaluated with the interpreted Len/Less), array/slice/map/struct literals and read-only package-level tables indexed by a folded bit field, make with a constant size, fmt.Sprintf with %s %d %v, string +, strconv.Itoa/FormatInt, strconv.ParseInt/ParseUint/Atoi (decimal text of a number that fits the requested width parses back to that number with a nil error; text with a non-digit gives a non-nil error), fmt.Errorf/errors.New return non-nil errors; sort.Sort/Stable/Slice contract",
+			"transfer functions of the interpreter: Go integer semantics of | & &^ ^ << >> + - and integer conversions (rules/c10_bitvec.go); strings.Split/SplitN/Cut/Contains/Count/Join, strings.Index/IndexByte/IndexRune/LastIndex/LastIndexByte/HasPrefix/HasSuffix/TrimPrefix/TrimSuffix, len(s), s[i] and s[a:b] over symbolic texts (byte offsets are exact cut points between text pieces), strings.Builder/bytes.Buffer locals (WriteString/WriteByte/WriteRune/Fprintf/String), * / % by constant powers of two, sort.Sort/Stable/Slice (recorded) and sort.IsSorted/SliceIsSorted (evaluated with the interpreted Len/Less), array/slice/map/struct literals and read-only package-level tables indexed by a folded bit field, make with a constant size, fmt.Sprintf with %s %d %v, string +, strconv.Itoa/FormatInt, strconv.ParseInt/ParseUint/Atoi (decimal text of a number that fits the requested width parses back to that number with a nil error; text with a non-digit gives a non-nil error), fmt.Errorf/errors.New return non-nil errors; sort.Sort/Stable/Slice contract",
 			"a generic text stands for every string the interpreted code cannot tell apart from it: texts only flow into splitting, ==/!=/switch against constants, conversions, formatting and strconv; every constant such a comparison uses is tried separately",
 		},
 		LevelText:  "K1-K4 are exhaustive over the abstract domain: the bit-level abstract interpretation of the real constructor/decoder bodies covers every kind, every ref in [0,2^40) and every version in [0,2^16) at once (all 2^56 inputs per kind, every bit-field boundary and every pair for the order claim) for each build configuration. K5/K6 evaluate String and the parsers over the same domain for the round trip (every id) and over enumerated classes of malformed text (each class with a representative the code cannot distinguish from its other members); they do not decide acceptance of odd shape-conforming text.",
@@ -68,8 +68,8 @@ func init() {
 			{ID: "K5", Floor: 61, Doc: "Parse(String(id)) = id for every form; exactly the kind/ref[:version] arities are accepted; non-numbers, unknown and foreign kinds give a non-nil error, no panic", Run: c10K5},
 			{ID: "K6", Floor: 5, Doc: "the decimal reference / version text is parsed base 10 with a width covering the whole range (strconv calls found by the text that reaches them)", Run: c10K6},
 		},
-		Mutants: c10AllVariants(c10Mutants, c10MutantsRound2, c10MutantsSort, c10MutantsRepr),
-		Benign:  c10AllVariants(c10Benign, c10BenignSort, c10BenignRepr),
+		Mutants: c10AllVariants(c10Mutants, c10MutantsRound2, c10MutantsSort, c10MutantsRepr, c10MutantsIndex, c10MutantsText),
+		Benign:  c10AllVariants(c10Benign, c10BenignSort, c10BenignRepr, c10BenignIndex, c10BenignText),
 	})
 }
 
